@@ -369,6 +369,10 @@ MUTATIONS = [
     {'id': 'c09-revert-voa-not-above-headroom', 'props': ['C09'], 'tests': 'tests/test_amplifier.py',
      'desc': 'revert of the fix: the automatic VOA is rounded to the nearest step, possibly above the headroom',
      'edits': [('gnpy/core/network.py', "            if voa > headroom + 1e-9:\n", "            if False:\n")]},
+    {'id': 'c05-revert-float-frequencies-in-beta3', 'props': ['C05'], 'tests': 'tests/test_propagation.py',
+     'desc': 'revert of the fix: beta3 computed on the frequencies as supplied (int64 overflow with a dispersion slope)',
+     'edits': [('gnpy/core/elements.py', "        frequency = asarray(self.params.ref_frequency if frequency is None else frequency, dtype=float)\n        if self.params.dispersion.size > 1:\n            beta3 =",
+                "        frequency = asarray(self.params.ref_frequency if frequency is None else frequency)\n        if self.params.dispersion.size > 1:\n            beta3 =")]},
     {'id': 'c11-revert-explicit-ispart', 'props': ['C11'], 'tests': 'tests/test_path_computation_functions.py tests/test_disjunction.py',
      'desc': 'revert of fix e50d35fe: explicit route returned without checking the listed nodes are crossed in order',
      'edits': [('gnpy/topology/request.py', "    if total_path is not None and ispart(nodes_list, total_path):",
